@@ -29,6 +29,8 @@ def check (params : List String) (lines : List String) : CaseResult := Id.run do
       s := s'
       hist := hist ++ [ev]
       if m then implFires := implFires + 1
+    | ["hang", i] =>
+      r := { r with specs := s!"satisfy_does_not_return: the Satisfy call for event {i} (after {hist.length} events) did not return within its deadline" :: r.specs }
     | _ => r := { r with bad := s!"line {n}: {ln}" :: r.bad }
   -- property predicate on the implementation's own answers
   let counts := (List.range len).map (matchCount hist)
